@@ -192,6 +192,19 @@ def gen_rescut(rng, size):
     return dict(seed=rng.randint(0, 1000), mod=rng.choice([1, 3, 1 << 20]), entities=ents, pools=[[0, cap]], uops=uops, ext=ext, focus='rescut')
 
 
+def gen_emptybatch(rng, size):
+    """A stream of batches of varying sizes with empty ones in between, unpacked (or re-batched) by a batcher whose exit is slow: an
+    empty batch arrives while the batcher still holds parts of the previous one (C02/C17: a batcher takes new input only when it has
+    nothing left to unpack and nothing waiting to leave — whatever the input is)."""
+    pat = [rng.choice([2, 3, 4]), -1, rng.choice([0, 2, 3]), -1][:rng.choice([2, 3, 4])]
+    ents = [dict(kind='source', cycle=rng.choice([0, 4, 4]), budget=rng.choice([4, 6, 8]), gen_value=8, gen_quality=8, gen_batch=2, gen_pattern=pat),
+            dict(kind='batcher', up=[1], batch_size=rng.choice([None, None, 2])),
+            dict(kind=rng.choice(['handler', 'processor']), up=[2], cycle=rng.choice([8, 12, 16])),
+            dict(kind='sink', cycle=0, collect=True, up=[3])]
+    ext = [['init']] + [['step']] * rng.randint(30, 70) + [['run', rng.choice([80, 160])]]
+    return dict(seed=rng.randint(0, 1000), mod=rng.choice([1, 3, 1 << 20]), entities=ents, pools=[], uops=[], ext=ext, focus='emptybatch')
+
+
 def gen_regate(rng, size):
     """A decision gate in front of a shared machine that re-measures the quality of what it finishes, used by a line that passes the
     group twice with one part in the system at a time: the gate judges the same part twice, in different states (C08: a gate lets a
@@ -214,7 +227,9 @@ def gen_regate(rng, size):
 
 
 def gen(rng, size='small', focus=None):
-    focus = focus or rng.choice(['plain', 'plain', 'faults', 'resources', 'buffers', 'batches', 'groups', 'gates', 'maint', 'rewire', 'mixed', 'parallel', 'late', 'hugedelay', 'rescut', 'regate'])
+    focus = focus or rng.choice(['plain', 'plain', 'faults', 'resources', 'buffers', 'batches', 'groups', 'gates', 'maint', 'rewire', 'mixed', 'parallel', 'late', 'hugedelay', 'rescut', 'regate', 'emptybatch'])
+    if focus == 'emptybatch':
+        return gen_emptybatch(rng, size)
     if focus == 'rescut':
         return gen_rescut(rng, size)
     if focus == 'regate':
@@ -254,7 +269,7 @@ def gen(rng, size='small', focus=None):
 
     maints = []
     if use_maint:
-        for _ in range(rng.choice([1, 1, 2])):
+        for _ in range(rng.choice([1, 1, 2, 2])):
             maints.append(add(dict(kind='maint', capacity=rng.choice([None, 8, 8, 16, 0]), value=0)))
 
     # sources
@@ -482,6 +497,12 @@ def gen(rng, size='small', focus=None):
         t1 = rng.choice([4, 8, 12, 16, 24, 32])
         ext.append(['at', t1, new_script([['add_res', n, -cap]]), rng.choice([32, 184])])
         ext.append(['at', t1 + rng.choice([4, 8, 16, 24]), new_script([['add_res', n, rng.choice([8, 8, 16, cap or 8])]]), rng.choice([32, 184])])
+    if len(maints) >= 2 and processors and rng.random() < 0.5:
+        # two maintainers working on the same machine at overlapping times (the second order starts on a machine that is already down)
+        d = rng.choice(processors)
+        t = rng.choice([6, 10, 14, 18, 26])
+        ext.append(['at', t, new_script([['create_wo', maints[0], d, -1]]), 184])
+        ext.append(['at', t + rng.choice([0, 2, 4, 6]), new_script([['create_wo', maints[1], d, 0]]), 184])
     if maints and len(processors) >= 2 and rng.random() < 0.4:
         # two (or three) work orders in progress at once that finish in another order than they started
         m = rng.choice(maints)
@@ -504,6 +525,9 @@ def gen(rng, size='small', focus=None):
     if rng.random() < 0.3:
         ext.append(['run', rng.choice([8, 40, 0])])
     sc = dict(seed=rng.randint(0, 1000), mod=rng.choice([1, 3, 3, 1 << 20]), entities=ents, pools=pools, uops=uops, ext=ext, focus=focus)
-    if rng.random() < 0.06:
+    r = rng.random()
+    if r < 0.06:
         sc['tick'] = 1024      # the same scenario on a grid of 1/1024 time (and value) units
+    elif r < 0.09:
+        sc['tick'] = 1 << 40   # ... and of 2**-40: every time and every value is below 1e-9, and exactly representable
     return sc
